@@ -323,6 +323,14 @@ impl Sim {
                 self.bump("op_probe");
                 out
             }
+            ["probeat", name, n] => {
+                let n: u64 = n.parse().unwrap();
+                let Some(h) = self.h.get_mut(*name) else { return "nocore".into() };
+                let Some(core) = h.core.as_mut() else { return "nocore".into() };
+                let s = Self::probe_core(core, &probe_indices(n));
+                Self::drain(h);
+                if s.len() > 600 { format!("{} ## {:016x}", s.split(" ::").next().unwrap(), fnv(&s)) } else { s }
+            }
             ["scan", name] => {
                 // has() on every index below length + two following pages' boundaries; digest only
                 let Some(h) = self.h.get_mut(*name) else { return "nocore".into() };
@@ -435,6 +443,77 @@ impl Sim {
                 let h = &self.h[*name];
                 if let Some(pk) = expect_pk { let e = format!("ok {} secret={}", hex(pk.as_bytes()), h.oracle.writable); if out != e { self.fail("key-pair-wrong", format!("key_pair() = {out}, expected {e}")); } }
                 out
+            }
+            ["faultnext", name, k] => {
+                // the k-th storage operation (reads and length queries included) from now on fails
+                let Some(h) = self.h.get_mut(*name) else { return "nocore".into() };
+                let mut w = h.world.lock().unwrap();
+                w.nops = 0; w.kinds.clear(); w.failed = false; w.fail_at = k.parse().ok();
+                "ok".into()
+            }
+            ["faultstate", name] => {
+                let Some(h) = self.h.get_mut(*name) else { return "nocore".into() };
+                let mut w = h.world.lock().unwrap();
+                let out = format!("failed={} kinds={}", w.failed, w.kinds.iter().collect::<String>());
+                w.fail_at = None;
+                out
+            }
+            ["reftree", name, blocks] => {
+                // every persisted node, the roots and the signature against the independent reference
+                let bs: Vec<Vec<u8>> = if *blocks == "~" { vec![] } else { blocks.split(',').map(unhex).collect() };
+                let Some(h) = self.h.get_mut(*name) else { return "nocore".into() };
+                if h.core.is_none() { return "nocore".into(); }
+                let refn = crate::reftree::all_nodes(&bs);
+                let len = bs.len() as u64;
+                let files = backend::dump_files(&h.world);
+                let mut fails: Vec<(&str, String)> = vec![];
+                let mut filenodes = 0u64;
+                let by_index: std::collections::HashMap<u64, &crate::reftree::RNode> = refn.iter().map(|n| (n.index, n)).collect();
+                for (i, rec) in files[0].chunks(40).enumerate() {
+                    if rec.len() < 40 || rec.iter().all(|b| *b == 0) { continue; }
+                    match by_index.get(&(i as u64)) {
+                        Some(n) => { filenodes += 1; if crate::reftree::node_bytes(n) != rec { fails.push(("tree-node-differs-from-reference", format!("persisted node {i} is {} but the scheme prescribes {} (log of {len} blocks)", hex(rec), hex(&crate::reftree::node_bytes(n))))); } }
+                        None => fails.push(("tree-node-not-in-reference", format!("the tree store holds a record at index {i}, which is not a full node of a {len}-block tree"))),
+                    }
+                }
+                let mut digest: Vec<u8> = vec![];
+                for n in &refn { digest.extend_from_slice(&n.index.to_le_bytes()); digest.extend_from_slice(&crate::reftree::node_bytes(n)); }
+                let roots: Vec<crate::reftree::RNode> = crate::reftree::roots(len).iter().map(|i| (*by_index[i]).clone()).collect();
+                let mut sig = "none".to_string();
+                let mut proofnodes = 0u64;
+                if len > 0 {
+                    let core = h.core.as_mut().unwrap();
+                    let pk = core.key_pair().public;
+                    let r = block_on(AssertUnwindSafe(core.create_proof(None, None, None, Some(RequestUpgrade { start: 0, length: len }))).catch_unwind());
+                    match r {
+                        Ok(Ok(Some(p))) => {
+                            let u = p.upgrade.unwrap();
+                            let got: Vec<(u64, u64, Vec<u8>)> = u.nodes.iter().map(|n| (n.index(), n.len(), n.hash().to_vec())).collect();
+                            let want: Vec<(u64, u64, Vec<u8>)> = roots.iter().map(|n| (n.index, n.size, n.hash.to_vec())).collect();
+                            if got != want { fails.push(("proof-roots-differ-from-reference", format!("upgrade 0..{len} carries roots {:?}, the scheme prescribes {:?}", got.iter().map(|x| (x.0, x.1)).collect::<Vec<_>>(), want.iter().map(|x| (x.0, x.1)).collect::<Vec<_>>()))); }
+                            let msg = crate::reftree::signable(&crate::reftree::tree_hash(&roots), len, 0);
+                            let ok = ed25519_dalek::Signature::from_slice(&u.signature).map(|s| { use ed25519_dalek::Verifier; pk.verify(&msg, &s).is_ok() }).unwrap_or(false);
+                            sig = if ok { "valid".into() } else { "INVALID".into() };
+                            if !ok { fails.push(("signature-invalid", format!("the served signature does not verify over namespace | tree hash | length {len} | fork 0 under the core's public key"))); }
+                        }
+                        other => { sig = format!("noproof:{}", match other { Ok(Ok(None)) => "none", Ok(Err(_)) => "err", _ => "panic" }); fails.push(("upgrade-proof-failed", format!("create_proof(upgrade 0..{len}) did not return a proof"))); }
+                    }
+                    // nodes carried in block proofs
+                    let step = (len / 7).max(1);
+                    let mut i = 0;
+                    while i < len {
+                        let height = 64 - len.leading_zeros() as u64;
+                        for nodes in [0u64, 1, height.saturating_sub(1)] {
+                            let r = block_on(AssertUnwindSafe(core.create_proof(Some(RequestBlock { index: i, nodes }), None, None, None)).catch_unwind());
+                            if let Ok(Ok(Some(p))) = r { for n in p.block.unwrap().nodes { proofnodes += 1; match by_index.get(&n.index()) { Some(rn) if rn.size == n.len() && rn.hash[..] == *n.hash() => {}, _ => fails.push(("proof-node-differs-from-reference", format!("block proof {i} (nodes {nodes}) carries node {} which differs from the reference", n.index()))) } } }
+                        }
+                        i += step;
+                    }
+                }
+                let ev = Self::drain(h); let _ = ev;
+                for (k, d) in fails { self.fail(k, d); }
+                self.bump("op_reftree");
+                format!("ok len={} filenodes={} roots={} sig={} proofnodes={} ref={:016x}", len, filenodes, roots.len(), sig, proofnodes, fnv_bytes(&digest))
             }
             ["dumpz", name] => {
                 // as `dump`, but without trailing zero bytes (a zero-length write past the end extends
